@@ -59,35 +59,35 @@ def check_sf_units(ctx):
     fi, ev = sf_eval(ctx)
     fv = ev.fv
     rets = [n for n in fv.return_nodes() if isinstance(n.stmt.value, ast.Tuple) and len(n.stmt.value.elts) == 2]
-    if len(rets) != 1:
+    if not rets:
         ctx.undecided("DIM", SF + ":return", fi, "return (k, S) not found")
         return ev
-    r = rets[0]
     for idx, (want, desc) in enumerate(((K_UNIT, "wave numbers: 1/length"), (S_UNIT, "structure factor: degree 0 in field amplitude and in cell count"))):
-        e = r.stmt.value.elts[idx]
         tag = f"{SF}:return[{idx}]"
-        if isinstance(e, ast.Name):
-            known, bad = 0, None
-            for d, u in ev.name_units_per_def(e.id, r):
+        known, bad = 0, None
+        for r in rets:
+            e = r.stmt.value.elts[idx]
+            if isinstance(e, ast.Name):
+                for d, u in ev.name_units_per_def(e.id, r):
+                    if isinstance(u, Unit):
+                        known += 1
+                        if not u.same(want) or u.pt:
+                            bad = (d.stmt if d.stmt is not None else r.stmt, u)
+            else:
+                u = ev.as_unit(ev.unit(e, r))
                 if isinstance(u, Unit):
                     known += 1
                     if not u.same(want) or u.pt:
-                        bad = (d, u)
-            if bad:
-                d, u = bad
-                ctx.violate("DIM", tag, (fi, d.stmt if d.stmt is not None else r.stmt),
-                            f"`{U(d.stmt)[:70] if d.stmt is not None else e.id}` gives the returned {desc.split(':')[0]} the unit {u.show()}, expected {want.show()} ({desc}): "
-                            + ("the structure factor changes when the field is multiplied by a constant or re-gridded" if idx == 1 else "wave numbers do not scale inversely with the grid's physical size"))
-            elif known:
-                ctx.hold("DIM", tag, (fi, r.stmt), f"{known} definition(s) with unit {want.show()} — {desc}")
-            else:
-                ctx.undecided("DIM", tag, (fi, r.stmt), "no definition with inferable unit")
+                        bad = (r.stmt, u)
+        if bad:
+            st_, u = bad
+            ctx.violate("DIM", tag, (fi, st_),
+                        f"`{U(st_)[:70]}` gives the returned {desc.split(':')[0]} the unit {u.show()}, expected {want.show()} ({desc}): "
+                        + ("the structure factor changes when the field is multiplied by a constant or re-gridded" if idx == 1 else "wave numbers do not scale inversely with the grid's physical size"))
+        elif known:
+            ctx.hold("DIM", tag, (fi, rets[0].stmt), f"{known} definition(s) with unit {want.show()} — {desc}")
         else:
-            u = ev.as_unit(ev.unit(e, r))
-            if isinstance(u, Unit):
-                ctx.decide(u.same(want), "DIM", tag, (fi, r.stmt), desc, f"returned value has unit {u.show()}, expected {want.show()}")
-            else:
-                ctx.undecided("DIM", tag, (fi, r.stmt), "unit not inferable")
+            ctx.undecided("DIM", tag, (fi, rets[0].stmt), "no definition with inferable unit")
     report_mismatches(ctx, fi, ev)
     report_obligations(ctx, fi, ev)
     return ev
@@ -134,7 +134,17 @@ def check_sf_structure(ctx):
     else:
         ctx.undecided("RAWDATA", SF + ":normalisation", fi, "normalisation statement not recognised")
     # ---- INDEXAGREE: per-axis wave numbers
+    from ..astutil import loop_as_comprehension
+
     comps = [s for s in fv.statements() if isinstance(s, ast.Assign) and isinstance(s.value, ast.ListComp) and "fftfreq" in U(s.value)]
+    if not comps:
+        for s_ in fv.statements():
+            if isinstance(s_, ast.For) and "fftfreq" in U(s_):
+                for init in fv.statements():
+                    if isinstance(init, ast.Assign) and isinstance(init.value, ast.List) and not init.value.elts and isinstance(init.targets[0], ast.Name):
+                        lc_ = loop_as_comprehension(s_, init.targets[0].id)
+                        if lc_ is not None:
+                            comps.append(ast.copy_location(ast.Assign(targets=[init.targets[0]], value=lc_, lineno=s_.lineno), s_))
     if len(comps) == 1:
         lc = comps[0].value
         g = lc.generators[0]
@@ -149,7 +159,7 @@ def check_sf_structure(ctx):
                 and d_arg is not None and U(d_arg).replace(" ", "") in (f"grid.discretization[{iv}]/(2*np.pi)", f"grid.discretization[{iv}]/(2*π)", f"grid.discretization[{iv}]/2/np.pi")
             sq = isinstance(lc.elt, ast.BinOp) and isinstance(lc.elt.op, ast.Pow) and U(lc.elt.right) == "2"
             ok = ok and sq
-        ctx.decide(ok, "INDEXAGREE", SF + ":wave-vectors", (fi, comps[0]),
+        ctx.decide(ok, "INDEXAGREE", SF + ":wave-vectors", (fi, comps[0]) if fv.node_of(comps[0]) is not None else fi,
                    "component i of the wave vectors = 2π·fftfreq(shape[i], spacing[i]) for every axis i (same index for size and spacing)",
                    f"wave-vector components are `{detail}`; every axis i needs fftfreq(grid.shape[i], d=grid.discretization[i]/(2π)) with its own cell count and its own spacing")
         km = [s for s in fv.statements() if isinstance(s, ast.Assign) and "reduce" in U(s.value) and U(comps[0].targets[0]) in names_in(s.value)]
@@ -176,17 +186,38 @@ def check_sf_structure(ctx):
     ctx.decide(ok, "PASS", SF + ":wave_numbers", (fi, asg[0]) if asg else fi, "requested wave numbers are converted to an array and returned unchanged; the smoothed spectrum is evaluated at exactly these points",
                "the wave numbers requested by the caller are not returned unchanged")
     # ---- ADDZERO
-    pre = [s for s in fv.statements() if isinstance(s, ast.Assign) and U(s.value).startswith("np.r_[")]
-    ok = False
-    detail = "no prepend statements"
-    if len(pre) == 2 and rets:
-        kname, sname = U(rets[0].value.elts[0]), U(rets[0].value.elts[1])
-        vals = {U(s.targets[0]): U(s.value).replace(" ", "") for s in pre}
-        guards = [[(U(t), p) for t, p in si.guards(s)] for s in pre]
-        ok = vals == {kname: f"np.r_[0,{kname}]", sname: f"np.r_[1,{sname}]"} and all(g == [("add_zero", True)] for g in guards) and all(fv.dominates(top(si, pre[0]), r) for r in rets)
-        detail = f"prepends {vals} under {guards[0]}"
-    ctx.decide(ok, "ADDZERO", SF, (fi, pre[0]) if pre else fi, "add_zero prepends exactly the pair (k=0, S=1), unconditionally, as the last step",
-               f"{detail}; expected k ← np.r_[0, k] and S ← np.r_[1, S] guarded by `add_zero` alone, right before the return")
+    from ..astutil import value_cases, truth_of
+
+    table = {}
+    for n in fv.return_nodes():
+        v = n.stmt.value
+        if not (isinstance(v, ast.Tuple) and len(v.elts) == 2):
+            continue
+        for dec, val in value_cases(fv, n.stmt, v):
+            az = truth_of(dec, "add_zero")
+            key = tuple(sorted((k, b_) for k, b_ in dec.items() if "add_zero" not in k))
+            if isinstance(val, ast.Tuple):
+                table.setdefault(key, {})[az] = (U(val.elts[0]), U(val.elts[1]), n.stmt)
+    ok, detail, where, n_pairs = True, "", fi, 0
+    for key, d in table.items():
+        if True in d and False in d:
+            n_pairs += 1
+            k0, s0, _ = d[False]
+            k1, s1, st_ = d[True]
+            if not (k1.replace(" ", "") == f"np.r_[0,{k0}]".replace(" ", "") and s1.replace(" ", "") == f"np.r_[1,{s0}]".replace(" ", "")):
+                ok = False
+                where = st_
+                detail = f"with add_zero the result is ({k1[:40]}…, {s1[:40]}…)"
+        elif None in d and len(d) == 1:
+            ok = False
+            detail = "the result does not depend on add_zero on some path (or depends on more than add_zero)"
+            where = d[None][2]
+        elif True in d or False in d:
+            ok = False
+            detail = "add_zero is combined with another condition: on some paths the zero mode is added or omitted regardless of the flag"
+            where = (d.get(True) or d.get(False))[2]
+    ctx.decide(ok and n_pairs > 0, "ADDZERO", SF, (fi, where), "add_zero prepends exactly the pair (k=0, S=1) to the otherwise unchanged result, whatever the other options are",
+               f"{detail}; expected (np.r_[0, k], np.r_[1, S]) exactly when add_zero is set")
 
 
 def top(si, node):
@@ -275,12 +306,21 @@ def check_ls_structure(ctx):
     ok = len(ax) == 1 and U(ax[0].value) == "set(range(grid.dim)) - set(grid.coordinate_constraints)"
     ctx.decide(ok, "VOLUME", LS + ":axes", (fi, ax[0]) if ax else fi, "droplets can be placed along the axes not constrained by the grid's symmetry",
                "the free axes are not set(range(grid.dim)) − set(grid.coordinate_constraints)")
-    per = [s for s in fv.statements() if isinstance(s, ast.Assign) and "len(droplets)" in U(s.value)]
-    okp = len(per) == 1 and U(per[0].value) == "volume / len(droplets)"
     loc = [c for c in fv.calls() if (fv.callee(c) or "").endswith("locate_droplets")]
     okl = len(loc) == 1 and [U(a) for a in loc[0].args] == [fi.params[0]] and any(k.arg is None and U(k.value) == "kwargs" for k in loc[0].keywords)
-    ctx.decide(okp and okl, "VOLUME", LS + ":per-droplet", (fi, per[0]) if per else fi, "volume per droplet = box volume / number of droplets located in the field (options forwarded)",
-               "volume per droplet is not (box volume)/len(locate_droplets(field, **kwargs))")
+    dn = None
+    if loc:
+        st_ = si.statement(loc[0])
+        dn = U(st_.targets[0]) if isinstance(st_, ast.Assign) else None
+    axn = U(ax[0].targets[0]) if ax else "axes"
+    ls = [s for s in fv.statements() if isinstance(s, ast.Assign) and any("droplet_detection" in U(t) and p for t, p in si.guards(s)) and isinstance(s.value, ast.BinOp) and isinstance(s.value.op, ast.Pow)]
+    okp = False
+    if len(ls) == 1 and dn:
+        vol_names = [n_ for n_ in names_in(fv.expand(ls[0].value, ls[0], stop=(dn, axn))) if n_ not in (dn, axn, "len")]
+        if len(vol_names) == 1:
+            okp = U(fv.expand(ls[0].value, ls[0], stop=(dn, axn, vol_names[0]))) == f"({vol_names[0]} / len({dn})) ** (1 / len({axn}))"
+    ctx.decide(okp and okl, "VOLUME", LS + ":per-droplet", (fi, ls[0]) if ls else fi, "length = (box volume / number of droplets located in the field) ** (1 / number of free axes) (options forwarded to locate_droplets)",
+               "the droplet-counting length scale is not (box volume / len(locate_droplets(field, **kwargs))) ** (1 / len(axes))")
     # peak: maximum excluding k = 0, bracket around it, 2π/k
     me = [s for s in fv.statements() if isinstance(s, ast.Assign) and U(s.targets[0]) == "max_est"]
     okm = len(me) == 1 and U(me[0].value) == "k_mag[1 + np.argmax(sf[1:])]"
